@@ -413,6 +413,8 @@ enum Status {
 struct Worker {
     parker: Arc<Parker>,
     deque: VecDeque<JobRef>,
+    /// Jobs of `broadcast` / `spawn_broadcast` addressed to this worker: nobody else may take them.
+    broadcasts: VecDeque<JobRef>,
     status: Status,
     /// Yield kind at which the worker is parked (None while it runs).
     parked_at: Option<YieldKind>,
@@ -665,8 +667,8 @@ impl Inner {
         }
         match w.status {
             Status::Running => true,
-            Status::Idle => !w.deque.is_empty() || self.stealable_for(t),
-            Status::Waiting(id) => self.job_done(id) || !w.deque.is_empty() || self.stealable_for(t),
+            Status::Idle => !w.deque.is_empty() || !w.broadcasts.is_empty() || self.stealable_for(t),
+            Status::Waiting(id) => self.job_done(id) || !w.deque.is_empty() || !w.broadcasts.is_empty() || self.stealable_for(t),
         }
     }
 
@@ -896,6 +898,7 @@ impl Sim {
             g.pools[a].workers.push(Worker {
                 parker,
                 deque: VecDeque::new(),
+                broadcasts: VecDeque::new(),
                 status: Status::Idle,
                 parked_at: Some(YieldKind::Idle),
                 depth: 0,
@@ -974,6 +977,8 @@ impl Sim {
     fn park_real(self: &Arc<Sim>, me: usize, mp: &Parker) {
         let mut last = self.progress.load(Ordering::SeqCst);
         let mut since = Instant::now();
+        let mut first_since = since;
+        let mut cpu_at_since = process_cpu_ns();
         loop {
             if mp.try_take() {
                 break;
@@ -984,8 +989,21 @@ impl Sim {
                 if p != last {
                     last = p;
                     since = Instant::now();
-                } else {
-                    if since.elapsed() > Duration::from_secs(self.watchdog_s) {
+                    cpu_at_since = process_cpu_ns();
+                    first_since = since;
+                } else if since.elapsed() > Duration::from_secs(self.watchdog_s) {
+                    // No scheduling point for a while. A thread that waits for a real lock held by a
+                    // parked thread sleeps; a thread that is simply busy (a long stretch of a changed
+                    // tree's own code between two scheduling points: a whole chunk of cells inside one
+                    // spawned task, hooks and guards off) burns CPU. Only the first is "blocked"; the
+                    // second gets more time, up to 15 watchdog periods in all (a spin loop on a flag
+                    // that a parked thread would have to set burns CPU for ever).
+                    let cpu = process_cpu_ns();
+                    let busy = (cpu.saturating_sub(cpu_at_since)) as u128 * 4 >= since.elapsed().as_nanos();
+                    if busy && first_since.elapsed() < Duration::from_secs(self.watchdog_s.saturating_mul(15)) {
+                        since = Instant::now();
+                        cpu_at_since = cpu;
+                    } else {
                         self.blocked.store(true, Ordering::SeqCst);
                         on_blocked();
                     }
@@ -1482,10 +1500,16 @@ impl Sim {
                 return Some(j);
             }
         }
-        // sources: injector, other deques
+        // sources: injector, other deques, the broadcast jobs addressed to this worker. (The real
+        // pool looks at its broadcast queue before it steals, but a broadcast reaches the workers one
+        // after the other and a worker may have looked just before: "steals although a broadcast job
+        // is waiting for it" is a legal order, so the choice is the scheduler's.)
         let mut src: Vec<usize> = vec![];
         if !g.pools[a].injector.is_empty() {
             src.push(usize::MAX);
+        }
+        if !g.pools[a].workers[me].broadcasts.is_empty() {
+            src.push(usize::MAX - 1);
         }
         for (i, w) in g.pools[a].workers.iter().enumerate() {
             if i != me && !w.deque.is_empty() {
@@ -1499,6 +1523,8 @@ impl Sim {
         let s = src[i];
         let j = if s == usize::MAX {
             g.pools[a].injector.pop_front()
+        } else if s == usize::MAX - 1 {
+            g.pools[a].workers[me].broadcasts.pop_front()
         } else {
             g.stats.steals += 1;
             g.pools[a].workers[s].deque.pop_front()
@@ -1590,6 +1616,15 @@ impl Sim {
             (_, Err(p)) => panic::resume_unwind(p),
         }
     }
+}
+
+/// CPU time consumed by the whole process so far (all threads), in nanoseconds.
+fn process_cpu_ns() -> u64 {
+    let mut ts = libc::timespec { tv_sec: 0, tv_nsec: 0 };
+    unsafe {
+        crate::sys::raw_syscall(libc::SYS_clock_gettime, libc::CLOCK_PROCESS_CPUTIME_ID, &mut ts as *mut libc::timespec);
+    }
+    ts.tv_sec as u64 * 1_000_000_000 + ts.tv_nsec as u64
 }
 
 fn on_blocked() -> ! {
@@ -2051,6 +2086,7 @@ pub(crate) fn adopt_thread() -> Option<Adopted> {
     g.pools[a].workers.push(Worker {
         parker: Arc::new(Parker::new()),
         deque: VecDeque::new(),
+        broadcasts: VecDeque::new(),
         status: Status::Running,
         // parked at a voluntary point: runnable as soon as it exists
         parked_at: Some(YieldKind::JobStart),
@@ -2762,6 +2798,212 @@ where
     spawn(f)
 }
 
+// ---- broadcast -----------------------------------------------------------------
+
+/// Context handed to the closures of `broadcast` / `spawn_broadcast`.
+pub struct BroadcastContext<'a> {
+    index: usize,
+    num_threads: usize,
+    _marker: std::marker::PhantomData<&'a ()>,
+}
+
+impl<'a> BroadcastContext<'a> {
+    pub fn index(&self) -> usize {
+        self.index
+    }
+    pub fn num_threads(&self) -> usize {
+        self.num_threads
+    }
+}
+
+impl<'a> std::fmt::Debug for BroadcastContext<'a> {
+    fn fmt(&self, f: &mut std::fmt::Formatter<'_>) -> std::fmt::Result {
+        f.debug_struct("BroadcastContext").field("index", &self.index).field("num_threads", &self.num_threads).finish()
+    }
+}
+
+/// Push one job per worker of the active pool onto the workers' own broadcast queues.
+fn push_broadcast_jobs(sim: &Arc<Sim>, me: usize, mut make: impl FnMut(usize, usize) -> Box<dyn FnOnce() + Send + 'static>) -> usize {
+    sim.ensure_workers();
+    let mut g = sim.lock();
+    let a = if me == DRIVER { g.active } else { current_pool() };
+    let k = g.pools[a].workers.iter().filter(|w| !w.foreign).count();
+    for i in 0..k {
+        let hj = Box::new(HeapJob { func: make(i, k) });
+        let id = g.next_job_id;
+        g.next_job_id += 1;
+        let jr = JobRef {
+            data: Box::into_raw(hj) as *const (),
+            exec: HeapJob::exec,
+            id,
+            origin: me,
+        };
+        g.pools[a].workers[i].broadcasts.push_back(jr);
+    }
+    k
+}
+
+/// `rayon::broadcast`: `op` runs once on every worker of the current pool; the results come back in
+/// thread-index order. The caller waits (a worker helps out meanwhile, and runs its own copy).
+pub fn broadcast<OP, R>(op: OP) -> Vec<R>
+where
+    OP: Fn(BroadcastContext<'_>) -> R + Sync,
+    R: Send,
+{
+    let (sim, me) = match current() {
+        Some(c) => c,
+        None => {
+            return vec![op(BroadcastContext {
+                index: 0,
+                num_threads: 1,
+                _marker: std::marker::PhantomData,
+            })]
+        }
+    };
+    struct Shared<R> {
+        results: Mutex<Vec<Option<thread::Result<R>>>>,
+        remaining: std::sync::atomic::AtomicUsize,
+    }
+    let latch_id = {
+        let mut g = sim.lock();
+        let id = g.next_job_id;
+        g.next_job_id += 1;
+        id
+    };
+    let shared: Shared<R> = Shared {
+        results: Mutex::new(vec![]),
+        remaining: std::sync::atomic::AtomicUsize::new(0),
+    };
+    let op_ptr = &op as *const OP as usize;
+    let sh_ptr = &shared as *const Shared<R> as usize;
+    let sim2 = sim.clone();
+    let k = push_broadcast_jobs(&sim, me, |i, k| {
+        let sim3 = sim2.clone();
+        let body: Box<dyn FnOnce() + Send + '_> = Box::new(move || {
+            // Safety: `broadcast` does not return before `remaining` reaches zero
+            let op = unsafe { &*(op_ptr as *const OP) };
+            let sh = unsafe { &*(sh_ptr as *const Shared<R>) };
+            let r = panic::catch_unwind(AssertUnwindSafe(|| {
+                op(BroadcastContext {
+                    index: i,
+                    num_threads: k,
+                    _marker: std::marker::PhantomData,
+                })
+            }));
+            let _i = InternalSection::new();
+            {
+                let mut v = sh.results.lock().unwrap_or_else(|e| e.into_inner());
+                while v.len() <= i {
+                    v.push(None);
+                }
+                v[i] = Some(r);
+            }
+            if sh.remaining.fetch_sub(1, Ordering::SeqCst) == 1 {
+                sim3.lock().finished_jobs.insert(latch_id);
+            }
+        });
+        // erase the lifetimes (see the safety comment above)
+        unsafe { std::mem::transmute::<Box<dyn FnOnce() + Send + '_>, Box<dyn FnOnce() + Send + 'static>>(body) }
+    });
+    // (no scheduling point since the jobs were pushed: none of them has run yet)
+    shared.remaining.store(k, Ordering::SeqCst);
+    if k == 0 {
+        sim.lock().finished_jobs.insert(latch_id);
+    }
+    if me == DRIVER {
+        sim.begin_root_op();
+        {
+            let mut g = sim.lock();
+            g.driver_wait = Some(latch_id);
+        }
+        loop {
+            let done = { self_done(&sim, latch_id) };
+            if done {
+                break;
+            }
+            sim.yield_point(DRIVER, YieldKind::Wait);
+        }
+        {
+            let mut g = sim.lock();
+            g.driver_wait = None;
+        }
+        sim.end_root_op();
+    } else {
+        loop {
+            if self_done(&sim, latch_id) {
+                break;
+            }
+            match sim.find_work(me, true) {
+                Some(j) => sim.execute(me, j),
+                None => {
+                    {
+                        let mut g = sim.lock();
+                        let a = current_pool();
+                        g.pools[a].workers[me].status = Status::Waiting(latch_id);
+                    }
+                    sim.yield_point(me, YieldKind::Wait);
+                    let mut g = sim.lock();
+                    let a = current_pool();
+                    g.pools[a].workers[me].status = Status::Running;
+                }
+            }
+        }
+    }
+    let mut out = Vec::with_capacity(k);
+    let mut first_panic = None;
+    let v = std::mem::take(&mut *shared.results.lock().unwrap_or_else(|e| e.into_inner()));
+    for r in v.into_iter().take(k) {
+        match r {
+            Some(Ok(x)) => out.push(x),
+            Some(Err(p)) => {
+                if first_panic.is_none() {
+                    first_panic = Some(p);
+                }
+            }
+            None => {}
+        }
+    }
+    if let Some(p) = first_panic {
+        panic::resume_unwind(p);
+    }
+    out
+}
+
+fn self_done(sim: &Arc<Sim>, id: u64) -> bool {
+    sim.lock().job_done(id)
+}
+
+/// `rayon::spawn_broadcast`: `op` runs once on every worker of the current pool, some time; nobody waits.
+pub fn spawn_broadcast<OP>(op: OP)
+where
+    OP: Fn(BroadcastContext<'_>) + Send + Sync + 'static,
+{
+    let (sim, me) = match current() {
+        Some(c) => c,
+        None => {
+            op(BroadcastContext {
+                index: 0,
+                num_threads: 1,
+                _marker: std::marker::PhantomData,
+            });
+            return;
+        }
+    };
+    let op = Arc::new(op);
+    push_broadcast_jobs(&sim, me, |i, k| {
+        let op = op.clone();
+        Box::new(move || {
+            let _ = panic::catch_unwind(AssertUnwindSafe(|| {
+                op(BroadcastContext {
+                    index: i,
+                    num_threads: k,
+                    _marker: std::marker::PhantomData,
+                })
+            }));
+        })
+    });
+}
+
 // ---- thread pools ------------------------------------------------------------
 
 #[derive(Debug)]
@@ -2838,5 +3080,18 @@ impl ThreadPool {
         F: FnOnce() + Send + 'static,
     {
         spawn(f)
+    }
+    pub fn broadcast<OP, R>(&self, op: OP) -> Vec<R>
+    where
+        OP: Fn(BroadcastContext<'_>) -> R + Sync,
+        R: Send,
+    {
+        broadcast(op)
+    }
+    pub fn spawn_broadcast<OP>(&self, op: OP)
+    where
+        OP: Fn(BroadcastContext<'_>) + Send + Sync + 'static,
+    {
+        spawn_broadcast(op)
     }
 }
